@@ -62,8 +62,14 @@ package messagesfactory
 //@   ensures [canonical-header] content(result.content.SignedHeader().Raw()) == BlockRefBytes(protocol.LEAN_HELIX_PREPREPARE, f.instanceId, blockHeight, view, content(blockHash))
 
 //@ func (*MessageFactory).CreateNewViewMessage
-//@   props C20
+//@   props C20 C11
 //@   requires [A-KM-SIGN] SignsAs(f.keyManager, f.memberId)
+//@   requires [well-formed] ppContentBuilder != nil && ppContentBuilder.SignedHeader != nil && ppContentBuilder.Sender != nil
+//@   ensures [C11:signed-over-the-header-it-carries] VerifiedMsg(f.keyManager, blockHeight, result.content.SignedHeader().Raw(), f.memberId, result.content.Sender().Signature())
+//@   ensures [C11:all-the-votes-nested-in-order] seq_len(result.content.SignedHeader(), "ViewChangeConfirmations") == len(confirmations)
+//@     | && (forall nk int :: 0 <= nk && nk < len(confirmations) && confirmations[nk] != nil ==> VoteReadsBack(seq_at(result.content.SignedHeader(), "ViewChangeConfirmations", nk), confirmations[nk]))
+//@   ensures [C11:the-proposal-embedded-as-built] BuiltRef(result.content.Message().SignedHeader(), ppContentBuilder.SignedHeader) && BuiltSender(result.content.Message().Sender(), ppContentBuilder.Sender)
+//@   ensures result.content.SignedHeader().InstanceId() == f.instanceId
 //@   ensures result != nil && result.content != nil && result.block == block
 //@   ensures result.content.SignedHeader().MessageType() == protocol.LEAN_HELIX_NEW_VIEW && result.content.SignedHeader().BlockHeight() == blockHeight && result.content.SignedHeader().View() == view
 //@   ensures result.content.Sender().MemberId() == f.memberId
